@@ -382,10 +382,74 @@ def _enumerate_meta(args):
     return out
 
 
+def _enumerate_file(args):
+    """The same tables observed in FILES: the module is written inside a Project and inside a Synth for every value of a
+    window, the stored number is read from the CVAL chunk (signed 32-bit, as documented) and the value is loaded back."""
+    t, st, complete, seed = args
+    import io
+    import random
+    import struct
+    from .common import setup_repo_path
+    setup_repo_path()
+    import rv.api as api
+    from . import tlv
+    rnd = random.Random(seed + 2)
+    cls = classes().get(t)
+    out = []
+    if cls is None:
+        return out
+    names = list(cls.controllers)
+    for i, c in enumerate(st["ctls"], 1):
+        if c["kind"] not in ("range", "compact", "nooffset"):
+            continue
+        if not (c["kind"] == "nooffset" or c["min"] < 0 or (i + seed) % 16 == 0):
+            continue
+        if t == "SpectraVoice" and c["name"].startswith("h"):
+            continue
+        lo, hi = c["min"], c["max"]
+        name = names[i - 1]
+        try:
+            m0 = cls()
+            patends = [int(cls.controllers[name].pattern_value(m0, lo)), int(cls.controllers[name].pattern_value(m0, hi))]
+        except Exception:
+            patends = [-777777, -777777]
+        for via in ("file-project", "file-synth"):
+            if hi - lo <= 300:
+                ws, comp = [(lo, hi)], True
+            else:           # the ends of the range and the neighbourhood of zero
+                ws, comp = [(lo, lo + 30)] + ([(-15, 15)] if lo + 30 < -15 and 15 < hi - 30 else []) + [(hi - 30, hi)], False
+            raws, back = [], []
+            for a, b in ws:
+                for v in range(a, b + 1):
+                    r, bk = -777777, -777777
+                    try:
+                        m = cls()
+                        setattr(m, name, v)
+                        if via == "file-project":
+                            p = api.Project()
+                            p.attach_module(m)
+                            data = p.read()
+                        else:
+                            data = api.Synth(m).read()
+                        cv = [struct.unpack("<i", pl)[0] for cid, pl in tlv.split(data) if cid == b"CVAL"]
+                        r = cv[i - 1]
+                        q = api.read_sunvox_file(io.BytesIO(data))
+                        m2 = q.modules[1] if via == "file-project" else q.module
+                        bk = val(getattr(m2, name))
+                    except Exception:
+                        pass
+                    raws.append((v, r))
+                    back.append((v, bk))
+            out.append({"op": "raws", "t": t, "i": i, "u": 0, "lo": lo, "hi": hi, "complete": comp, "via": via,
+                        "raws": runs(raws), "back": runs(back), "pat": None, "patends": patends})
+    return out
+
+
 def enumerate_tables(spec, complete, seed, procs=16):
     import multiprocessing as mp
     jobs = [(t, st, complete, seed) for t, st in sorted(spec.items()) if st["ctls"]]
     with mp.get_context("fork").Pool(procs) as pool:
         res = pool.map(_enumerate_type, jobs, chunksize=1)
         res2 = pool.map(_enumerate_meta, jobs, chunksize=1)
-    return [e for r in res + res2 for e in r]
+        res3 = pool.map(_enumerate_file, jobs, chunksize=1)
+    return [e for r in res + res2 + res3 for e in r]
